@@ -73,3 +73,19 @@ Definition run_aconv (m : mode) (verify : bool) (tab : list (bytes * tpacket)) (
            (cancels : list bool) (wsched : list (list bytes)) : list (ctok tpacket) :=
   aconv tpacket (tparse tab) t_ver_of t_is_keepalive gen_version m verify (pong_frame m)
         (2 * (length tab + length rs + length ws) + 16) Top (init_state tpacket) rs ws cancels wsched [].
+
+(* ---- the models' state against the connection structs (field names regenerated from the source) ----
+   Net/Framed.v: the state of a connection is its receive buffer (and the immutable transport, codec and
+   verification flag).  Net/Async.v [fstate]: the tokio connection additionally keeps the outstanding
+   keep-alive reply and the packet that asked for it.  A further field would be state the models lack. *)
+Require Import Coq.Strings.String Coq.Strings.Ascii.
+Definition name_bytes (s : string) : bytes := map (fun a => N_of_ascii a) (list_ascii_of_string s).
+Fixpoint names_eqb (a : list bytes) (b : list string) : bool :=
+  match a, b with
+  | [], [] => true
+  | x :: a', y :: b' => list_eqb x (name_bytes y) && names_eqb a' b'
+  | _, _ => false
+  end.
+Definition state_tied : bool :=
+  names_eqb gen_framed_fields_blocking ["inner"; "codec"; "buffer"; "verify_version"]%string &&
+  names_eqb gen_framed_fields_tokio ["inner"; "codec"; "buffer"; "verify_version"; "pending_reply"; "pending_packet"]%string.
